@@ -59,7 +59,7 @@ pub fn core() -> SweepProfile {
 /// Captures read back by backreferences while lazy / optional loops backtrack into the group:
 /// few constructors, deep sizes (the undo log of capture ends lives here).
 pub fn capback() -> SweepProfile {
-    let unary = vec![Unary::Group, q(1, Some(2), false), q(0, Some(1), true), q(1, Some(3), true), q(0, None, false)];
+    let unary = vec![Unary::Group, q(1, Some(2), false), q(0, Some(1), true), q(1, Some(3), true), q(0, None, false), q(0, Some(2), true), q(0, Some(2), false)];
     SweepProfile {
         profile: Profile { name: "P-capback", leaves: vec![ch('a'), ch('b'), Node::BackRef(1), Node::Dot], unary, cat: true, alt: true, max_quant_nest: 2 },
         flags: vec![fl("")],
@@ -320,6 +320,7 @@ pub fn onechar() -> SweepProfile {
         cls(false, "a"),
         cls(false, "aé"),
         cls(false, "ab😀"),
+        cls(false, "\0a"),
         cls(true, "a"),
         cls(true, "é"),
         Node::Class { negated: false, items: vec![ClassItem::Range('a' as u32, 'c' as u32)] },
